@@ -197,7 +197,7 @@ fn observe(reader: &IndexReader, idx: usize, do_reload: bool, f: &Fields, dir: &
     ReaderEvent { reader: idx, thread: who.to_string(), reload: do_reload, start_step: s0, end_step: s1, start_seq: q0, end_seq: q1, result }
 }
 
-fn setup_readers(e: &mut Exec) -> Result<(), String> {
+pub fn setup_readers(e: &mut Exec, spawn_threads: bool) -> Result<(), String> {
     let cfg = &e.case.cfg;
     let policy = if cfg.reader_on_commit { ReloadPolicy::OnCommitWithDelay } else { ReloadPolicy::Manual };
     let mut readers = vec![];
@@ -222,7 +222,13 @@ fn setup_readers(e: &mut Exec) -> Result<(), String> {
     let mut handles = vec![];
     let mut rng = Rng::new(derive(e.case.seed, &[0x5EAD]));
     // reader threads: thread t uses reader t % n (so with 2 threads on 1 reader they share it)
-    let n_threads = if rng.chance(1, 3) { cfg.n_readers + 1 } else { cfg.n_readers };
+    let n_threads = if !spawn_threads {
+        0
+    } else if rng.chance(1, 3) {
+        cfg.n_readers + 1
+    } else {
+        cfg.n_readers
+    };
     for t in 0..n_threads {
         let ridx = t % cfg.n_readers;
         let reader = readers[ridx].clone();
@@ -290,7 +296,7 @@ fn body_readers(prop: &'static str, case: &Case) -> RunOut {
         Ok(e) => e,
         Err(m) => return harness_fail(m),
     };
-    if let Err(m) = setup_readers(&mut e) {
+    if let Err(m) = setup_readers(&mut e, true) {
         READERS.with(|r| *r.borrow_mut() = None);
         return harness_fail(m);
     }
@@ -340,7 +346,7 @@ fn body_readers(prop: &'static str, case: &Case) -> RunOut {
 }
 
 /// Post-hoc oracle over the recorded reader history.
-fn check_reader_events(e: &mut Exec, evs: &[ReaderEvent], prop: &'static str) {
+pub fn check_reader_events(e: &mut Exec, evs: &[ReaderEvent], prop: &'static str) {
     let commit_maps: Vec<BTreeMap<u64, String>> = e
         .model
         .commits
@@ -352,6 +358,11 @@ fn check_reader_events(e: &mut Exec, evs: &[ReaderEvent], prop: &'static str) {
     for (i, ev) in evs.iter().enumerate() {
         match &ev.result {
             Err(msg) => {
+                if e.fault_profile_reads {
+                    // under injected faults a reload may fail: the error was reported to the caller
+                    e.out.probe("reader_error_reported_under_fault");
+                    continue;
+                }
                 e.out.violate(
                     prop,
                     if ev.reload { "reload_failed" } else { "search_failed" },
@@ -474,6 +485,19 @@ fn main_reader_op(e: &mut Exec, op: &Op) {
 
 thread_local! {
     static INDEX2: std::cell::RefCell<Option<Index>> = const { std::cell::RefCell::new(None) };
+}
+
+pub fn forget_stale() {
+    READERS.with(|r| {
+        if let Some(x) = r.borrow_mut().take() {
+            std::mem::forget(x);
+        }
+    });
+    INDEX2.with(|i| {
+        if let Some(x) = i.borrow_mut().take() {
+            std::mem::forget(x);
+        }
+    });
 }
 
 fn is_lock_failure(e: &tantivy::TantivyError) -> bool {
